@@ -256,7 +256,9 @@ pub fn runloop_lines(events: &[Event]) -> Vec<String> {
     };
     for e in events {
         match e {
-            Event::Rec { origin: Origin::RunLoop, text, .. } => {
+            // (the driver's own voice: the run loop and the prompt file - a notice may be written by
+            // either; program output - printer, services - never counts)
+            Event::Rec { origin: Origin::RunLoop, text, .. } | Event::Rec { origin: Origin::Prompt, text, .. } => {
                 for ch in text.chars() {
                     if ch == '\n' {
                         buf.push('\n');
